@@ -76,6 +76,15 @@ def generate(seed, tier="quick"):
         t = irng.choice(f["tests"])
         t["events"].append({"t": "cmp", "eid": "exa", "site": "xa", "vals": [c13.wrap(irng, c13.ext_value(irng))], "style": "rec"})
         t["events"].append({"t": "cmp", "eid": "enr", "site": "nr", "vals": [["norepr", irng.randint(1, 5)]], "style": "rec"})
+    prng_ = sub(seed, "parenthesised-kwarg")
+    if prng_.random() < 0.12:
+        # a constructor call whose kept keyword argument is written in parentheses, directly in front of an argument that update deletes (it holds its
+        # default) or that fix inserts
+        f = sorted(prog["files"], key=lambda f: f["name"])[0]
+        arg, val = prng_.choice([("DC(a=(5), b=None)", "DC(a=7)"), ("DC(a=5, b=None)", "DC(a=3 + 4j)"), ("DC(a=5, b=None)", "DC(a=3 + 4j)"), ("DC(a=(5), c=[])", "DC(a=5, b=2)"), ("DCD(x=1, y='y')", "DCD(x=1 + 2j)")])
+        # (a complex value is the one the tool itself writes in parentheses: the fix session creates the parenthesised argument the update session then has to step around)
+        f["sites"]["pk"] = {"op": "eq", "place": "direct", "arg": arg, "prev": ["raw", arg]}
+        prng_.choice(f["tests"])["events"].append({"t": "cmp", "eid": "epk", "site": "pk", "vals": [["raw", val]], "style": "rec"})
     zrng = sub(seed, "samesize")
     if zrng.random() < 0.15:
         # a fix that keeps the size of the file (two elements change places) next to a pending update in the same list: the session that follows
@@ -185,6 +194,13 @@ def execute(case, ctx):
                 good = False
                 break
         if not good:
+            if not sim.session_completed(driver, r):
+                # approving together completed, this order dies on the way (nothing more is written): it does not reach the same program
+                cv = sim.completion_violation(driver, r, f"order {'>'.join(order)}, session {c}")
+                out["violations"].append({"clause": "confluence", "sig": "one-at-a-time-dies-where-together-completes:" + cv["sig"].split(":", 1)[1],
+                                          "detail": f"driver={driver} fmt={fmt_tag(fmt)} pending={pend}: approving them together completes; in the order {' then '.join(order)} the session that approves {c} ends in an internal error\n"
+                                                    + cv["detail"][-1500:] + "\n--- before that session\n" + cur[sorted(k for k in cur if k.startswith('test_'))[0]].decode('utf-8', 'replace')[:900]})
+                break
             out["discards"]["single-category-session-did-not-complete(C18)"] = out["discards"].get("single-category-session-did-not-complete(C18)", 0) + 1
             continue
         ctx.count("orders_executed")
